@@ -79,6 +79,12 @@ def cases(rng, tier):
     for ci in (0, 1):
         for m in [{}, {"nonce": "absent"}, {"nonce": "other-flow"}, {"nonce": "wrong"}, {"iss": "J"}, {"aud": "other"}, {"signer": "foreign-rsa"}, {"exp": "past"}]:
             out.append({"t": "idt", "cfg": ci, "path": 0, "mut": m, "signer": m.get("signer", base_signer(ci)), "after_exchange": True})
+    # the provider first answers the request with an ERROR (the user refused), handled by the client; then a response for the same state
+    # arrives: what the client remembered of its request — the nonce — is still what the ID token is held to
+    for ci in (0, 1, 3):
+        for pi in (0, 1, 3):
+            for m in [{}, {"nonce": "absent"}, {"nonce": "other-flow"}, {"nonce": "wrong"}, {"aud": "other"}, {"signer": "foreign-rsa"}]:
+                out.append({"t": "idt", "cfg": ci, "path": pi, "mut": m, "signer": m.get("signer", base_signer(ci)), "after_error": True})
     keys = list(MUT)
     for _ in range(npair):
         ks = rng.sample(keys, rng.choice([2, 2, 3]))
@@ -316,6 +322,13 @@ def impl(c):
         gcode = op.code_for(flow)
         op.plan = {}
         rp.finalize({"code": gcode, "state": state, "id_token": op.idtoken(nonce, "sub-alice", code=gcode)})
+    if c.get("after_error"):
+        for via in ("finalize_auth", "finalize"):
+            try:
+                getattr(rp, via)({"error": "access_denied", "error_description": "the user said no", "state": state}) if via == "finalize_auth" \
+                    else rp.finalize({"error": "access_denied", "state": state})
+            except Exception:
+                pass
     _before = ctx.cstate.get(state).get("__verified_id_token") if c.get("after_exchange") else None
     _before = _before.to_dict() if hasattr(_before, "to_dict") else _before
     _, other_nonce = _begin(rp, "code id_token")
